@@ -94,8 +94,13 @@ OpsMatch(logged, model) ==
   /\ CmpO => IF Embed THEN Embeds(model, logged, 1, 1)
              ELSE /\ Len(logged) = Len(model)
                   /\ \A k \in 1 .. Len(logged) : OpMatch(logged[k], model[k])
-  /\ CmpR => /\ Len(RngOps(logged)) = Len(RngOps(model))
-             /\ \A k \in 1 .. Len(RngOps(logged)) : OpMatch(RngOps(logged)[k], RngOps(model)[k])
+  \* the RNG is built from the transcript, keyed with every commitment blinding factor (in any order) and then finalized
+  /\ CmpR => LET a == RngOps(logged)  b == RngOps(model) IN
+             /\ Len(a) = Len(b)
+             /\ \A k \in 1 .. Len(a) : (b[k].o # "RK") => OpMatch(a[k], b[k])                 \* RB first, RF last
+             /\ \A k \in 1 .. Len(b) : (b[k].o = "RK") =>
+                    Cardinality({j \in 1 .. Len(a) : a[j].o = "RK" /\ OpMatch(a[j], b[k])})
+                      = Cardinality({j \in 1 .. Len(b) : b[j] = b[k]})
 
 ProofLabels == {"A_I1", "A_O1", "S1", "A_I2", "A_O2", "S2", "T_1", "T_3", "T_4", "T_5", "T_6", "t_x", "t_x_blinding", "e_blinding", "L", "R"}
 ProofOrChal(ops) == SelectSeq(ops, LAMBDA o : (o.o = "A" /\ o.l \in ProofLabels) \/ o.o = "C")
